@@ -652,6 +652,17 @@ PROPS["C03"]["check_mods"].append("C11l2")
 PROPS["C03"]["drivers"].append({"name": "c11l2", "n_quick": 6, "n_thorough": 100, "timeout": 3000})
 PROPS["C03"]["rule"] += (" A consumer that never drains its queue (c11l2, see C11; the first scenario always): 65536+ unread "
     "deliveries for one consumer while the others, the channels and the connection go on.")
+# returns after a dropped confirm listener (seed C03f): the listener scenarios of the c13 generator under C03 too
+PROPS["C03"]["check_mods"].append("C13")
+PROPS["C03"]["drivers"].append({"name": "c13", "n_quick": 160, "n_thorough": 4000, "timeout": 3000})
+PROPS["C03"]["rule"] += (" Returned messages at the level of the I/O thread (c13, see C13): return and confirm listeners "
+    "installed, replaced and dropped, acks / nacks and returns in any order.")
+# Connection::close still reports the server's close (seed C20e): the end-to-end deaths under C20 too
+PROPS["C20"]["check_mods"].append("C05l2")
+PROPS["C20"]["drivers"].append({"name": "c05l2", "n_quick": 28, "n_thorough": 600, "timeout": 3000})
+PROPS["C20"]["rule"] += (" End to end (c05l2, see C05): a real connection with caller threads, the server's Connection.Close "
+    "(and six other ways to die) landing while calls and close() are in flight; close() must report the server's close.")
+PROPS["C20"]["trusted_base"] = PROPS["C20"]["trusted_base"] + L2_TRUSTED
 # a silent server while the connection is closing (seed C05d): the heartbeat scenarios of the c05 generator
 PROPS["C17"]["check_mods"].append("C05")
 PROPS["C17"]["drivers"].append({"name": "c05core", "n_quick": 160, "n_thorough": 2000, "timeout": 3000})
